@@ -117,10 +117,12 @@ pub open spec fn handler_may_run<C: ServerContext>(handler: Arc<dyn RouteHandler
            &&& handler == route->Ok_0.handler
            &&& rqctx.endpoint == route->Ok_0.endpoint })
 }
+/// what running this handler on this request context and request yields (the excised task-mode dispatch, W10)
+pub uninterp spec fn dispatch_outcome<C: ServerContext>(handler: Arc<dyn RouteHandler<C>>, rqctx: RequestContext<C>, request: Request<Body>) -> Result<Response, HandlerError>;
 #[verifier::external_body]
 pub fn run_handler_to_completion<C: ServerContext>(handler: Arc<dyn RouteHandler<C>>, rqctx: RequestContext<C>, request: Request<Body>, Ghost(remote_addr): Ghost<SocketAddr>) -> (r: Result<Response, HandlerError>)
     requires handler_may_run(handler, rqctx, request, remote_addr)
-    ensures r is Ok ==> produced_by_handler(r->Ok_0)
+    ensures r == dispatch_outcome(handler, rqctx, request), r is Ok ==> produced_by_handler(r->Ok_0)
 { unimplemented!() }
 
 // ---- for http_request_handle_wrap ----
